@@ -45,7 +45,7 @@ type c04Params struct {
 func (c04) ID() string    { return "C04" }
 func (c04) Level() string { return "exploration" }
 func (c04) Rule() string {
-	return "each case: stack x suite x client-auth x which side's SM2 key agreement is the harness's (the other side's built-in code is what is compared) x random application writes in both directions, on a full handshake followed by a resumed one. A passive wire monitor (package ref, no code shared with gotlcp) re-derives pre-master, master secret, key block and both Finished values from the captured bytes and opens every protected record of each direction with that direction's own key. A quarter of the stream-stack cases run the library (either role) against the independent reference endpoint instead of a second copy of itself: that endpoint picks random explicit GCM nonces and pads its CBC records with three extra blocks; handshake, both Finished values and data in both directions must work; as ECDHE client it picks, in every second case, an ephemeral key that makes the pre-master secret begin with a zero byte. distinct = distinct (stack, suite, auth, wrap side, write-size vectors); non-trivial = both handshakes completed and at least one protected application record per direction was opened"
+	return "each case: stack x suite x client-auth x which side's SM2 key agreement is the harness's (the other side's built-in code is what is compared) x random application writes in both directions, on a full handshake followed by a resumed one. A passive wire monitor (package ref, no code shared with gotlcp) re-derives pre-master, master secret, key block and both Finished values from the captured bytes and opens every protected record of each direction with that direction's own key. A quarter of the stream-stack cases run the library (either role) against the independent reference endpoint instead of a second copy of itself: that endpoint picks random explicit GCM nonces and pads its CBC records with three extra blocks; handshake, both Finished values and data in both directions must work; as ECDHE client it picks, in every second case, an ephemeral key that makes the pre-master secret begin with a zero byte. In one case of six one direction carries 257-656 small writes, so that the record sequence number passes 255 (and 511) on one connection and its carry is compared too. distinct = distinct (stack, suite, auth, wrap side, write-size vectors); non-trivial = both handshakes completed and at least one protected application record per direction was opened"
 }
 func (c04) Components() (real, stub []string) {
 	return []string{"tlcp/dtlcp client+server (instrumented): key agreement, PRF, key schedule, record protection", "lruSessionCache"},
@@ -100,6 +100,19 @@ func drawC04(src *vs.Src) *c04Params {
 	if p.Stack == TLCP && src.Bool(1, 4) {
 		p.Foreign, p.ForeignRole = true, pickStr(src, []string{"client", "server"})
 		p.C2S, p.S2C = drawSizes(src, 4, 4000), drawSizes(src, 4, 4000) // C2S: what the library writes, S2C: what it is sent
+	}
+	if src.Bool(1, 6) {
+		// many records: one direction carries several hundred small writes, so that the record sequence number
+		// (and with it the GCM nonce and the MAC input) passes 255 and 511, where its low byte carries over
+		many := make([]int, 257+src.Intn(400))
+		for i := range many {
+			many[i] = 1 + src.Intn(8)
+		}
+		if src.Bool(1, 2) {
+			p.C2S = many
+		} else {
+			p.S2C = many
+		}
 	}
 	return p
 }
